@@ -20,8 +20,12 @@ type c19State struct {
 	entered  map[gopacket.LayerType]bool
 }
 
-func (s *c19State) one(t gopacket.LayerType, b []byte, how string) {
+func (s *c19State) one(t gopacket.LayerType, in []byte, how string) {
 	c := s.c
+	// an exact-capacity copy: a decoder that re-slices beyond len (within a larger capacity) would read bytes that are not
+	// part of the input without any fault; with cap == len the same mistake is a slice-bounds panic
+	b := make([]byte, len(in))
+	copy(b, in)
 	det := func() map[string]any {
 		return map[string]any{"first_layer": t.String(), "input_hex": hx(b), "input_len": len(b), "mutation": how}
 	}
